@@ -10,7 +10,7 @@ import (
 
 // C15 — route announcements do not travel beyond the configured hop limit.
 func TestVP_C15_MaxHops(t *testing.T) {
-	st := vp.NewStats("C15", "maxhops", "vpsim chains and meshes of 3-8 nodes with max_hops 1-6 (and 255 as control) set on every flooder; after convergence no node holds a route whose recorded path is longer than the limit, in a chain nodes beyond the limit hold nothing of the origin and nodes within it hold everything; non-trivial = some node lies beyond the limit of some origin")
+	st := vp.NewStats("C15", "maxhops", "vpsim chains and meshes of 3-8 nodes with max_hops 1-6 (and 255 as control) set on every flooder; after convergence no node holds a route whose recorded path is longer than the limit, in a chain nodes beyond the limit hold nothing of the origin and nodes within it hold everything; links come up in generated order with the network drained fully, partly or not at all in between (full-table replays of learned routes); non-trivial = some node lies beyond the limit of some origin")
 	defer st.Flush()
 	rapid.Check(t, func(t *rapid.T) {
 		n := rapid.IntRange(3, 8).Draw(t, "n")
@@ -35,7 +35,43 @@ func TestVP_C15_MaxHops(t *testing.T) {
 			t.Fatalf("VPFAIL C15 the flooder has no hop-limit setting at all (FloodConfig.MaxHops missing): routing.max_hops cannot be enforced")
 		}
 		routes := vpPlaceRoutes(t, s, 3, 0)
-		vpConverge(t, s, edges, false)
+		// links come up one after another; between two connects the network is drained
+		// completely, partly or not at all, so that later links see full-table replays of
+		// routes their neighbour has already learned (recorded path long, seen-by list short)
+		late := false
+		staged := rapid.Bool().Draw(t, "staged")
+		for _, e := range rapid.Permutation(edges).Draw(t, "connectOrder") {
+			for o := range s.nodes {
+				if (len(s.learned(e[0], o)) > 0 && o != e[0]) || (len(s.learned(e[1], o)) > 0 && o != e[1]) {
+					late = true
+				}
+			}
+			s.connect(e[0], e[1])
+			if !staged {
+				continue // every link is up before the first frame is delivered
+			}
+			switch rapid.IntRange(0, 2).Draw(t, "between") {
+			case 0:
+				if !s.drain(20000) {
+					t.Fatalf("VPFAIL C15 no quiescence: %s", s.history())
+				}
+			case 1:
+				for k := rapid.IntRange(1, 8).Draw(t, "some"); k > 0 && len(s.pendingLinks()) > 0; k-- {
+					links := s.pendingLinks()
+					l := links[rapid.IntRange(0, len(links)-1).Draw(t, "link")]
+					s.deliver(l, rapid.IntRange(0, len(s.queues[l])-1).Draw(t, "frame"), false)
+				}
+			}
+		}
+		if !s.drainRandom(t, 20000) {
+			t.Fatalf("VPFAIL C15 no quiescence after connecting: %s", s.history())
+		}
+		for _, i := range rapid.Permutation(vpRange(len(s.nodes))).Draw(t, "announceOrder") {
+			s.announce(i)
+		}
+		if !s.drainRandom(t, 20000) {
+			t.Fatalf("VPFAIL C15 no quiescence after announcements: %s", s.history())
+		}
 		beyond := false
 		for i := range s.nodes {
 			d := s.dist(i)
@@ -56,13 +92,20 @@ func TestVP_C15_MaxHops(t *testing.T) {
 					if d[o] > maxHops && len(got) > 0 {
 						t.Fatalf("VPFAIL C15 max_hops=%d but node %d, %d hops from origin %d, stores %s\n  chain of %d, routes %s", maxHops, i, d[o], o, got[0].key, n, routes)
 					}
-					if d[o] <= maxHops && len(got) < len(s.originated(o)) {
+					// completeness (guards against a limit that cuts too early) is judged only
+					// when all links were up before any delivery: with replays of learned routes
+					// the listed finding C12 replay-sequence-collision can hide announcements
+					if !staged && d[o] <= maxHops && len(got) < len(s.originated(o)) {
 						t.Fatalf("VPFAIL C15 max_hops=%d cut off node %d which is only %d hops from origin %d (holds %d of %d routes)\n  chain of %d, routes %s\n  history: %s", maxHops, i, d[o], o, len(got), len(s.originated(o)), n, routes, s.history())
 					}
 				}
 			}
 		}
 		// nobody at or beyond the limit forwards: frames forwarded carry a seen-by list longer than the limit only if someone beyond forwarded
-		st.Case(fmt.Sprintf("%s n=%d %v maxHops=%d routes=%s", shape, n, edges, maxHops, routes), beyond, shape, fmt.Sprintf("maxHops-%d", maxHops))
+		cls := []string{shape, fmt.Sprintf("maxHops-%d", maxHops)}
+		if late {
+			cls = append(cls, "link-came-up-after-routes-were-learned")
+		}
+		st.Case(fmt.Sprintf("%s n=%d %v maxHops=%d routes=%s late=%v", shape, n, edges, maxHops, routes, late), beyond, cls...)
 	})
 }
